@@ -2,8 +2,11 @@
     Only property theorems live here, each closed by [exact] and followed by Print Assumptions.
 
     Generic theorems are over an abstract [o : sr_ops S] with the law records
-    [sr_ring o], [sr_ordered o], [sr_star o] as premises (the instances for the carriers
-    ereal / trop / bool are proved under C08 in Proofs/SemiringLaws.v).
+    [sr_ring o], [sr_ordered o], [sr_star o] as premises.  The law records of the carriers
+    ereal / trop / bool are proved under C08 in Proofs/SemiringLaws.v; the carrier-specific
+    theorems here (C09_least_is_series_bool_exact, C09_real_lu_path, C09_F2_former_star_*, and the
+    instances at the end of the file) are composed with them in Proofs/Instances_solve.v and
+    carry NO law premise.
 
     [sol_spec o n A b x]    : forall i < n, x i = sum_{j<n} A[i][j] * x j + b[i]
     [presol_spec o n A b y] : forall i < n, sum_{j<n} A[i][j] * y j + b[i] <= y i
@@ -15,6 +18,7 @@ Require Import Fggs.Proofs.SolveElim Fggs.Proofs.SolveRefine Fggs.Proofs.SolveCa
 Require Import Fggs.Proofs.SolveBool Fggs.Proofs.SolveLU.
 Require Import Fggs.Model.MultiSolve Fggs.Proofs.MultiMV Fggs.Proofs.SolveBlock Fggs.Proofs.SolveMatInst.
 Require Import Fggs.Proofs.MultiOrder.
+Require Import Fggs.Proofs.Instances_solve.
 Local Open Scope nat_scope.
 
 (** (A) elimination of the unknowns in ANY order (scalars: solve1 a r = star a * r) yields a
@@ -92,10 +96,9 @@ Print Assumptions C09_series_oracle_complete.
 
 (** ... with equality at N = dim in the Boolean semiring *)
 Theorem C09_least_is_series_bool_exact :
-  sr_ring bool_ops -> sr_ordered bool_ops -> sr_star bool_ops ->
   forall n A b i, i < n ->
     get1 bool_ops (series bool_ops n A b n) i = get1 bool_ops (solve_model bool_ops n A b) i.
-Proof. exact bool_series_exact. Qed.
+Proof. exact bool_series_exact_closed. Qed.
 Print Assumptions C09_least_is_series_bool_exact.
 
 (** (A) RealSemiring.solve_thunks: with an LU oracle that returns the unique rational solution
@@ -103,14 +106,13 @@ Print Assumptions C09_least_is_series_bool_exact.
     particular an accepted LU answer equals the generic answer.
     [lin_sol n A b y]: forall i < n, y i - sum_j A[i][j] * y j = b[i] over Qc *)
 Theorem C09_real_lu_path :
-  sr_ring ereal_ops -> sr_ordered ereal_ops -> sr_star ereal_ops ->
   forall (lu : mat ereal -> vec ereal -> option (list luval)) n A b (q : nat -> Qc),
     finite_sys n A b ->
     lu A b = Some (map (fun i => LFin (q i)) (seq 0 n)) ->
     lin_sol n A b q -> (forall y, lin_sol n A b y -> forall i, i < n -> y i = q i) ->
   forall i, i < n ->
     get1 ereal_ops (real_solve_model lu n A b) i = get1 ereal_ops (solve_model ereal_ops n A b) i.
-Proof. exact real_lu_path. Qed.
+Proof. exact real_lu_path_closed. Qed.
 Print Assumptions C09_real_lu_path.
 
 (** (A) multi_mv equals the dense matrix-vector product of the assembled blocks: block x,
@@ -213,9 +215,8 @@ Print Assumptions C09_order_nonterminals_enumerates.
     ([tstar_code]: inf for x >= 0; the current code is [tstar]).  The model run with the former
     star still returns a solution ... *)
 Theorem C09_F2_former_star_solution :
-  sr_ring trop_ops ->
   forall n A b, sol_spec trop_ops n A b (get1 trop_ops (solve_model trop_code_ops n A b)).
-Proof. exact viterbi_code_star_solution. Qed.
+Proof. exact viterbi_code_star_solution_closed. Qed.
 Print Assumptions C09_F2_former_star_solution.
 
 (** ... which is not the least one: x = max(0 + x, -1) is answered +inf *)
@@ -227,12 +228,11 @@ Print Assumptions C09_F2_former_star_refuted.
 
 (** ... and is the least one under the guard "no pivot met by the loop is exactly 0" *)
 Theorem C09_F2_former_star_guarded :
-  sr_ring trop_ops -> sr_ordered trop_ops -> sr_star trop_ops ->
   forall n A b, no_zero_pivot n A = true ->
     (forall i, i < n -> get1 trop_ops (solve_model trop_code_ops n A b) i
                         = get1 trop_ops (solve_model trop_ops n A b) i)
     /\ least_spec trop_ops n A b (get1 trop_ops (solve_model trop_code_ops n A b)).
-Proof. exact viterbi_code_star_guarded. Qed.
+Proof. exact viterbi_code_star_guarded_closed. Qed.
 Print Assumptions C09_F2_former_star_guarded.
 
 (** the decision procedures handed to the oracles are sound for the three carriers *)
@@ -248,3 +248,124 @@ Theorem C09_certificate_oracle_complete :
   forall n A b u x, least_spec o n A b (get1 o x) -> cert_le_b o leb n A b u x = true.
 Proof. exact (@cert_le_b_complete). Qed.
 Print Assumptions C09_certificate_oracle_complete.
+
+(** * carrier instances, no premises: the law records of Proofs/SemiringLaws.v (C08) discharged *)
+(** the code's answer ([solve_model] = the Gauss-Jordan loop of Semiring.solve_thunks) is the
+    least solution of x = A x + b in BoolSemiring, RealSemiring (LogSemiring read through exp)
+    and ViterbiSemiring *)
+Theorem C09_solve_model_least_bool :
+  forall n A b, least_spec bool_ops n A b (get1 bool_ops (solve_model bool_ops n A b)).
+Proof. exact bool_solve_model_least. Qed.
+Print Assumptions C09_solve_model_least_bool.
+
+Theorem C09_solve_model_least_real :
+  forall n A b, least_spec ereal_ops n A b (get1 ereal_ops (solve_model ereal_ops n A b)).
+Proof. exact real_solve_model_least. Qed.
+Print Assumptions C09_solve_model_least_real.
+
+Theorem C09_solve_model_least_viterbi :
+  forall n A b, least_spec trop_ops n A b (get1 trop_ops (solve_model trop_ops n A b)).
+Proof. exact trop_solve_model_least. Qed.
+Print Assumptions C09_solve_model_least_viterbi.
+
+(** every elimination order gives the code's answer, which is the least solution *)
+Theorem C09_elimination_least_bool :
+  forall n A b order, Permutation order (seq 0 n) ->
+    least_spec bool_ops n A b (elim bool_ops nat Nat.eq_dec order (get2 bool_ops A) (get1 bool_ops b)).
+Proof. exact bool_elimination_least. Qed.
+Print Assumptions C09_elimination_least_bool.
+
+Theorem C09_any_order_same_answer_bool :
+  forall n A b order, Permutation order (seq 0 n) -> forall i, i < n ->
+    elim bool_ops nat Nat.eq_dec order (get2 bool_ops A) (get1 bool_ops b) i = get1 bool_ops (solve_model bool_ops n A b) i.
+Proof. exact bool_any_order_same_answer. Qed.
+Print Assumptions C09_any_order_same_answer_bool.
+
+Theorem C09_elimination_least_real :
+  forall n A b order, Permutation order (seq 0 n) ->
+    least_spec ereal_ops n A b (elim ereal_ops nat Nat.eq_dec order (get2 ereal_ops A) (get1 ereal_ops b)).
+Proof. exact real_elimination_least. Qed.
+Print Assumptions C09_elimination_least_real.
+
+Theorem C09_any_order_same_answer_real :
+  forall n A b order, Permutation order (seq 0 n) -> forall i, i < n ->
+    elim ereal_ops nat Nat.eq_dec order (get2 ereal_ops A) (get1 ereal_ops b) i = get1 ereal_ops (solve_model ereal_ops n A b) i.
+Proof. exact real_any_order_same_answer. Qed.
+Print Assumptions C09_any_order_same_answer_real.
+
+Theorem C09_elimination_least_viterbi :
+  forall n A b order, Permutation order (seq 0 n) ->
+    least_spec trop_ops n A b (elim trop_ops nat Nat.eq_dec order (get2 trop_ops A) (get1 trop_ops b)).
+Proof. exact trop_elimination_least. Qed.
+Print Assumptions C09_elimination_least_viterbi.
+
+Theorem C09_any_order_same_answer_viterbi :
+  forall n A b order, Permutation order (seq 0 n) -> forall i, i < n ->
+    elim trop_ops nat Nat.eq_dec order (get2 trop_ops A) (get1 trop_ops b) i = get1 trop_ops (solve_model trop_ops n A b) i.
+Proof. exact trop_any_order_same_answer. Qed.
+Print Assumptions C09_any_order_same_answer_viterbi.
+
+(** sum_{k<=N} A^k b <= solve A b (Bool: equality at N = n, above) *)
+Theorem C09_least_is_series_real :
+  forall n A b N i, i < n ->
+    le ereal_ops (get1 ereal_ops (series ereal_ops n A b N) i) (get1 ereal_ops (solve_model ereal_ops n A b) i).
+Proof. exact real_least_is_series. Qed.
+Print Assumptions C09_least_is_series_real.
+
+Theorem C09_least_is_series_viterbi :
+  forall n A b N i, i < n ->
+    le trop_ops (get1 trop_ops (series trop_ops n A b N) i) (get1 trop_ops (solve_model trop_ops n A b) i).
+Proof. exact trop_least_is_series. Qed.
+Print Assumptions C09_least_is_series_viterbi.
+
+(** the oracle that judges every implementation output, with exactly the decision procedures
+    the check functions [dense_check_*] hand to it: acceptance implies "least solution" *)
+Theorem C09_oracle_sound_bool :
+  forall n A b x, is_least_solution_b bool_ops Bool.eqb bool_leb n A b x = true -> least_spec bool_ops n A b (get1 bool_ops x).
+Proof. exact bool_oracle_sound. Qed.
+Print Assumptions C09_oracle_sound_bool.
+
+Theorem C09_oracle_sound_real :
+  forall n A b x, is_least_solution_b ereal_ops eeqb eleb n A b x = true -> least_spec ereal_ops n A b (get1 ereal_ops x).
+Proof. exact real_oracle_sound. Qed.
+Print Assumptions C09_oracle_sound_real.
+
+Theorem C09_oracle_sound_viterbi :
+  forall n A b x, is_least_solution_b trop_ops teqb tleb n A b x = true -> least_spec trop_ops n A b (get1 trop_ops x).
+Proof. exact trop_oracle_sound. Qed.
+Print Assumptions C09_oracle_sound_viterbi.
+
+(** block elimination over N x N matrices with the dense solver on the diagonal blocks *)
+Theorem C09_matrix_block_elimination_least_bool :
+  forall (N : nat) (K : Type) (K_eq_dec : forall a b : K, {a = b} + {a <> b})
+         (vs : list K) (A : K -> K -> @coef bool) (b : K -> @nvec bool N), NoDup vs ->
+  let x := belim (@coef bool) (@nvec bool N) (cadd bool_ops) (cmul bool_ops N) (act bool_ops N) (vadd bool_ops N) (vzero bool_ops N)
+                 (solve1 bool_ops N) (rstar bool_ops N) K K_eq_dec vs A b in
+  bis_sol (@coef bool) (@nvec bool N) (act bool_ops N) (vadd bool_ops N) (vzero bool_ops N) K vs A b x /\
+  (forall y, bis_presol (@coef bool) (@nvec bool N) (act bool_ops N) (vadd bool_ops N) (vzero bool_ops N) (vle bool_ops N) K vs A b y ->
+             forall i, In i vs -> vle bool_ops N (x i) (y i)).
+Proof. exact bool_matrix_block_elimination. Qed.
+Print Assumptions C09_matrix_block_elimination_least_bool.
+
+Theorem C09_matrix_block_elimination_least_real :
+  forall (N : nat) (K : Type) (K_eq_dec : forall a b : K, {a = b} + {a <> b})
+         (vs : list K) (A : K -> K -> @coef ereal) (b : K -> @nvec ereal N), NoDup vs ->
+  let x := belim (@coef ereal) (@nvec ereal N) (cadd ereal_ops) (cmul ereal_ops N) (act ereal_ops N) (vadd ereal_ops N) (vzero ereal_ops N)
+                 (solve1 ereal_ops N) (rstar ereal_ops N) K K_eq_dec vs A b in
+  bis_sol (@coef ereal) (@nvec ereal N) (act ereal_ops N) (vadd ereal_ops N) (vzero ereal_ops N) K vs A b x /\
+  (forall y, bis_presol (@coef ereal) (@nvec ereal N) (act ereal_ops N) (vadd ereal_ops N) (vzero ereal_ops N) (vle ereal_ops N) K vs A b y ->
+             forall i, In i vs -> vle ereal_ops N (x i) (y i)).
+Proof. exact real_matrix_block_elimination. Qed.
+Print Assumptions C09_matrix_block_elimination_least_real.
+
+Theorem C09_matrix_block_elimination_least_viterbi :
+  forall (N : nat) (K : Type) (K_eq_dec : forall a b : K, {a = b} + {a <> b})
+         (vs : list K) (A : K -> K -> @coef trop) (b : K -> @nvec trop N), NoDup vs ->
+  let x := belim (@coef trop) (@nvec trop N) (cadd trop_ops) (cmul trop_ops N) (act trop_ops N) (vadd trop_ops N) (vzero trop_ops N)
+                 (solve1 trop_ops N) (rstar trop_ops N) K K_eq_dec vs A b in
+  bis_sol (@coef trop) (@nvec trop N) (act trop_ops N) (vadd trop_ops N) (vzero trop_ops N) K vs A b x /\
+  (forall y, bis_presol (@coef trop) (@nvec trop N) (act trop_ops N) (vadd trop_ops N) (vzero trop_ops N) (vle trop_ops N) K vs A b y ->
+             forall i, In i vs -> vle trop_ops N (x i) (y i)).
+Proof. exact trop_matrix_block_elimination. Qed.
+Print Assumptions C09_matrix_block_elimination_least_viterbi.
+
